@@ -256,13 +256,29 @@ class ExprParser(RecursiveDescent):
         self.exit("expression")
         return atom_lhs
 
+    def integer_literal(self):
+        """Value of the current INTEGER token.
+        A leading 0 makes the literal octal in C and C++;
+        Fortran would read the same digits as decimal.
+        """
+        text = self.token.value
+        try:
+            if len(text) > 1 and text[0] == "0":
+                return int(text, 8)
+            return int(text)
+        except ValueError:
+            self.error_msg("Invalid digit in octal constant '{}'", text)
+
     def primary(self):
         self.enter("primary")
         if self.peek("ID"):
             node = self.identifier()
         elif self.token.typ in ["REAL", "INTEGER"]:
             self.enter("constant")
-            node = Constant(self.token.value)
+            if self.token.typ == "INTEGER":
+                node = Constant(str(self.integer_literal()))
+            else:
+                node = Constant(self.token.value)
             self.next()
         elif self.have("LPAREN"):
             node = ParenExpr(self.expression())
@@ -716,8 +732,9 @@ class Parser(ExprParser):
         value = self.token.value
         if self.have("REAL"):
             value = float(value)
-        elif self.have("INTEGER"):
-            value = int(value)
+        elif self.peek("INTEGER"):
+            value = self.integer_literal()
+            self.next()
         elif self.have("DQUOTE"):
             value = value
         elif self.have("SQUOTE"):
